@@ -1125,6 +1125,9 @@ result_t NumberDataType::writeRawValue(unsigned int value, size_t offset, size_t
 
 result_t NumberDataType::getRawValueFromFloat(float val, unsigned int* output) const {
   unsigned int value;
+  if (!isfinite(val)) {
+    return RESULT_ERR_INVALID_NUM;  // NaN or infinity
+  }
   if (hasFlag(EXP)) {  // IEEE 754 binary32
     double dvalue = val;
     if (m_divisor < 0) {
@@ -1139,6 +1142,10 @@ result_t NumberDataType::getRawValueFromFloat(float val, unsigned int* output) c
   } else {
     if (m_divisor == 1) {
       if (hasFlag(SIG)) {
+        double limit = exp2(static_cast<double>(m_bitCount) - 1);
+        if (val < -limit || val >= limit) {
+          return RESULT_ERR_OUT_OF_RANGE;  // value out of range
+        }
         long signedValue = static_cast<long>(val);
         if (signedValue < 0 && m_bitCount != 32) {
           value = (unsigned int)(signedValue + (1 << m_bitCount));
@@ -1147,6 +1154,8 @@ result_t NumberDataType::getRawValueFromFloat(float val, unsigned int* output) c
         }
       } else if (val < 0) {
         return RESULT_ERR_INVALID_NUM;  // invalid value
+      } else if (val >= exp2(static_cast<double>(m_bitCount))) {
+        return RESULT_ERR_OUT_OF_RANGE;  // value out of range
       } else {
         value = static_cast<unsigned int>(val);
       }
